@@ -93,11 +93,7 @@ func c12(c *q.Ctx) {
 		c.Gate(f, "UtxoVM.tryLockKey", q.ToCallSameIter("append"), q.Opt{K1Only: true, Min: 2})
 	}
 	// key extraction
-	ek := c.Fn(ut + "(*SpinLock).ExtractLockKeys")
-	if ek != nil {
-		c.Effect(ek, q.Eff{Spec: "delete", Arg: 0, Glob: "newmap<map[string]bool>", Req: []q.Cond{{Canon: "(\"$transient\" == p1.TxOutputsExt[].Bucket)", Sense: false}}, Why: "a key that is read and written is locked exclusively only: it leaves the shared set", Rule: "K2"})
-		c.StoreIs(ek, "LockKey.lockType", "1 OR 2", 4, "inputs, own outputs and written keys exclusive (2); read-only keys shared (1)")
-	}
+	lockKeyExtraction(c)
 	tl := c.Fn(ut + "(*SpinLock).TryLock")
 	if tl != nil {
 		c.Guard(tl, q.Cond{Canon: "(1 == sync.(*Map).LoadOrStore(p0.m,p1[].key,p1[].lockType)#0)", Sense: false}, q.ToSuccess(), q.Opt{})
@@ -113,5 +109,17 @@ func c12(c *q.Ctx) {
 	if ul != nil {
 		c.Effect(ul, q.Eff{Spec: "Map.Delete", Arg: 0, Glob: "p1[#down].key", Req: []q.Cond{{Canon: "(2 == p1[#down].lockType)", Sense: true}}, Why: "an exclusive holder frees the key", Rule: "K2"})
 		c.Effect(ul, q.Eff{Spec: "Map.Delete", Arg: 0, Glob: "p1[#down].key", Req: []q.Cond{{Canon: "(1 == p1[#down].lockType)", Sense: true}, {Canon: "(0 == utxo.(*refCounter).Release(p0.refCounter,p1[#down].key))", Sense: true}}, Why: "a shared entry is freed only by its last holder", Rule: "K2"})
+	}
+}
+
+// lockKeyExtraction (C12, C03): which keys a transaction locks and how - inputs, own outputs and WRITTEN keys
+// exclusively, keys that are only read shared; a key that is read and written leaves the shared set (locked shared,
+// two transactions that supersede the same version both pass the version check).
+func lockKeyExtraction(c *q.Ctx) {
+	const ut = "bcs/ledger/xledger/state/utxo::"
+	ek := c.Fn(ut + "(*SpinLock).ExtractLockKeys")
+	if ek != nil {
+		c.Effect(ek, q.Eff{Spec: "delete", Arg: 0, Glob: "newmap<map[string]bool>", Req: []q.Cond{{Canon: "(\"$transient\" == p1.TxOutputsExt[].Bucket)", Sense: false}}, Why: "a key that is read and written is locked exclusively only: it leaves the shared set", Rule: "K2"})
+		c.StoreIs(ek, "LockKey.lockType", "1 OR 2", 4, "inputs, own outputs and written keys exclusive (2); read-only keys shared (1)")
 	}
 }
